@@ -50,6 +50,7 @@ DEFAULT_KNOBS: Dict[str, Any] = {
     "propagate": [True, True, False],
     "validate_params": [True, True, False],
     "p_probe": 0.0,
+    "p_register_late": 0.15,
     "cpu": True,
     "swarm": True,
 }
@@ -129,6 +130,10 @@ def gen_tasks(r: Any, kn: dict) -> List[dict]:
         for j in range(r.randint(1, 2)):
             g = gen_deps(r, kn)
             tasks.append({"name": f"td{j}", "ctx": r.random() < 0.7, "sync": False, **g})
+    for t in tasks:
+        # registered on the worker's broker only after its Receiver was constructed (prepared lazily at the first execution)
+        if r.random() < kn.get("p_register_late", 0.15):
+            t["register_late"] = True
     return tasks
 
 
